@@ -98,6 +98,8 @@ def differential_evolution(
     best_solution = population[best_idx][:]
     best_obj = fitness[best_idx]
 
+    iteration = 0  # stays 0 when max_iter is 0 (the loop body never runs)
+
     for iteration in range(1, max_iter + 1):
         for i in range(pop_size):
             # Select base vector
